@@ -375,7 +375,7 @@ def check_nonreserved(rec: Rec, content: bytes, via: str, nontrivial=True):
 
 # ================================================================================ alphabets
 def name_octets(tier):
-    out = [n.encode("utf-8") for n in D.NAMES] + [b"x" * 120, "ü".encode("utf-8") * 60]
+    out = [n.encode("utf-8") for n in D.NAMES] + [b"x" * 120, "ü".encode("utf-8") * 60, b"data/", b"./a.txt", b"a/../b"]
     if tier != "quick":
         out += [b"\x00", b"\xff\xfe", b"\x01\x00", b"n" * 63, b"n" * 64, bytes(range(100, 200))]
     return D.dedupe(out)
